@@ -86,7 +86,9 @@ Nodes5 == <<"self", "n1", "n2", "n3", "n4">>
 
 Nodes == { NodeOrder[i] : i \in 1..Len(NodeOrder) }
 Self == NodeOrder[1]
-NoId == "none"
+NoId == "none"               \* entry without a Name element
+RootId == "root"             \* entry whose node id is the name of zero components: the code tests
+                             \* `if not rsv.node_id` and cannot tell it from a missing id; same class
 NoSeq == -1
 Zero == [n \in Nodes |-> 0]
 MaxI(a, b) == IF a >= b THEN a ELSE b
@@ -94,13 +96,15 @@ MaxV(f, g) == [n \in Nodes |-> MaxI(f[n], g[n])]
 Newer(f, g) == \E n \in Nodes : f[n] > g[n]          \* f is newer than g in some entry
 
 -----------------------------------------------------------------------------
-(* Packets. p = [k |-> kind, es |-> <<[id |-> node | NoId, seq |-> Nat | NoSeq], ...>>]
+(* Packets. p = [k |-> kind, es |-> <<[id |-> node | NoId | RootId, seq |-> Nat | NoSeq], ...>>]
+   Nodes are abstract here; the executor gives them unusual but decodable names (component types 0,
+   65535, 65536, 2^32, empty values, non-UTF-8 bytes): C18 holds for them like for any node.
    kinds other than "sv" are sync Interests whose vector cannot be obtained at all.
    The finite packet alphabets the model checker quantifies over are in SvsMC.tla (kept out of this
    module because TLC evaluates every constant definition at start-up, and SvsTrace instantiates
    this module with 5 nodes and sequence numbers up to 24).                                   *)
 \* ---- what a packet denotes (declarative; used by the properties)
-HasId(e) == e.id # NoId
+HasId(e) == e.id \notin {NoId, RootId}
 HasSeq(e) == e.seq # NoSeq
 Good(e) == HasId(e) /\ HasSeq(e)
 Decodable(p) == p.k = "sv" /\ Len(p.es) > 0
